@@ -9,7 +9,7 @@ def _cfgs_for(p, tier):
     return p["cfgs_thorough"] if tier == "thorough" and "cfgs_thorough" in p else p["cfgs"]
 
 
-def rand_bursts(rng, n, kinds, horizon=30000, cancel=False, hosts=("fe80::a1", "fe80::a2", "fe80::a3")):
+def rand_bursts(rng, n, kinds, horizon=30000, cancel=False, hosts=("fe80::a1", "2001:db8::a2", "fd00::a3")):
     """Random long bursty history around the 3 s / 500 ms boundaries."""
     steps, t = [], 0
     gaps = [0, 0, 0, 1, 2, 250, 499, 500, 501, 1000, 2999, 3000, 3001, 1500, 5999, 6000]
@@ -26,9 +26,9 @@ def rand_bursts(rng, n, kinds, horizon=30000, cancel=False, hosts=("fe80::a1", "
                     st["nowait"] = True
                 steps.append(st)
             elif k == "badhl":
-                steps.append({"op": "rs", "src": "fe80::bad", "hl": rng.randrange(0, 255)})
+                steps.append({"op": "rs", "src": rng.choice(["fe80::bad", "unspec", "2001:db8::bad"]), "hl": rng.randrange(0, 255)})
             elif k in ("ns", "na"):
-                steps.append({"op": "msg", "kind": k, "src": "fe80::cc"})
+                steps.append({"op": "msg", "kind": k, "src": rng.choice(["fe80::cc", "unspec", "fd00::cc"])})
             elif k == "flip":
                 steps.append({"op": "flip", "toggle": True})
             elif k == "rasame":
